@@ -101,6 +101,22 @@ def gen_case(rng, default_cap):
                 max_matches=max_matches, path=path, cap=default_cap)
 
 
+def par_model(kind, lines, threads=8):
+    """vlib.model on few but heavy cases: one driver process per case group"""
+    if len(lines) <= 1:
+        return vlib.model(kind, lines)
+    from concurrent.futures import ThreadPoolExecutor
+    k = min(threads, len(lines))
+    groups = [lines[i::k] for i in range(k)]
+    with ThreadPoolExecutor(max_workers=k) as ex:
+        outs = list(ex.map(lambda g: vlib.model(kind, g), groups))
+    res = [None] * len(lines)
+    for i, o in enumerate(outs):
+        for j, x in enumerate(o):
+            res[i + j * k] = x
+    return res
+
+
 def hist_val(h):
     return vlist(["()" if op == "E" else str(op) for op in h])
 
@@ -141,10 +157,10 @@ def ref_grep(c):
     return out
 
 
-def check_lib_cases(ctx, cases, stats):
+def check_lib_cases(ctx, cases, stats, heavy=False):
     lc = [case_lines(c) for c in cases]
     co = vlib.code(1401, [a for a, _ in lc])
-    mo = vlib.model(1401, [b for _, b in lc])
+    mo = (par_model if heavy else vlib.model)(1401, [b for _, b in lc])
     for c, (cl, ml), cout, mout in zip(cases, lc, co, mo):
         if cout in ("PANIC", "MISSING") or cout.startswith("PARSEFAIL"):
             ctx.violation("harness %s on a search case (debug assertion / overflow in the searcher?)" % cout,
@@ -240,6 +256,275 @@ def check_lib_cases(ctx, cases, stats):
         ctx.sample(dict(case=repr(c), result=cout)) if nontrivial and binev else None
 
 
+# ----------------------------------------------------------------------------- CLI level
+
+NEEDLES = [b"a", b"ab"]
+
+
+def gen_text(rng, n):
+    words = [b"a", b"ab", b"b", b"x", b"bb x", b"xa b", b"", b"x x x"]
+    out = bytearray()
+    while len(out) < n:
+        out += rng.choice(words) + b"\n"
+    return bytes(out)
+
+
+def gen_long_text(rng, n):
+    """long lines, few matches: keeps the unary-arithmetic model fast on 64 KiB+ inputs"""
+    out = bytearray()
+    while len(out) < n:
+        out += bytes(rng.choice(b"xb ") for _ in range(rng.randint(80, 500)))
+        out += (rng.choice([b"a", b"ab", b"xa b"]) if rng.random() < 0.25 else b"") + b"\n"
+    return bytes(out)
+
+
+def put_nul(s, p):
+    p = max(0, min(p, len(s)))
+    return s[:p] + b"\x00" + s[p:]
+
+
+def gen_file(rng, cap, big_ok):
+    k = rng.randint(0, 11)
+    if k == 0:
+        return b""
+    if k == 1:
+        return gen_text(rng, rng.randint(1, 60))
+    if k == 2:
+        return put_nul(gen_text(rng, rng.randint(1, 60)), 0)
+    if k == 3:
+        s = gen_text(rng, rng.randint(1, 60))
+        return put_nul(s, len(s))                      # last byte
+    if k == 4:
+        s = gen_text(rng, rng.randint(1, 60))
+        return put_nul(s, len(s) - 1)                  # inside the last line
+    if k in (5, 6):
+        s = gen_text(rng, rng.randint(5, 80))
+        i = s.find(b"a")
+        return put_nul(s, (i + 1) if i >= 0 and k == 5 else rng.randint(0, len(s)))   # inside a matching line / anywhere
+    if k == 7:
+        s = gen_text(rng, rng.randint(5, 80))
+        i = s.find(b"a")
+        j = s.find(b"\n", i) if i >= 0 else -1
+        return put_nul(s, j + 1 if j >= 0 else len(s))  # right after a matching line
+    if k == 8 and big_ok:
+        s = gen_long_text(rng, cap + rng.randint(200, 3000))
+        return put_nul(s, cap + rng.choice([-3, -2, -1, 0, 1, 2, 3]))
+    if k == 9 and big_ok:
+        s = gen_long_text(rng, cap + rng.randint(200, 3000))
+        return put_nul(s, rng.randint(cap + 4, len(s)))
+    if k == 10 and big_ok:
+        s = gen_long_text(rng, 2 * cap + rng.randint(10, 500))
+        s = put_nul(s, rng.randint(cap, len(s)))
+        return put_nul(s, rng.randint(0, len(s))) if rng.random() < 0.3 else s
+    s = gen_text(rng, rng.randint(1, 40))
+    return s[:-1] if rng.random() < 0.5 else s         # unterminated last line
+
+
+def gen_file_big(rng, cap):
+    while True:
+        f = gen_file(rng, cap, True)
+        if len(f) > cap:
+            return f
+
+
+_MODE_CACHE = {}
+
+
+def model_mode(flag, explicit, stdin):
+    """detection_for through the extracted model (kind 1403)"""
+    key = (flag, explicit, stdin)
+    if key not in _MODE_CACHE:
+        _MODE_CACHE[key] = _model_mode(flag, explicit, stdin)
+    return _MODE_CACHE[key]
+
+
+def _model_mode(flag, explicit, stdin):
+    out = vlib.model(1403, [vlist([str(flag), "0", vbool(stdin), "0" if explicit else "1", "0"])])[0]
+    v = parse_val(out)
+    return v[0], (v[1] if len(v) > 1 else 0)
+
+
+def predict_file(c_common, content, path, mm, cap, stdin=False):
+    """model case for one file as the CLI searches it"""
+    c = dict(c_common)
+    c.update(stream=content, path=path, cap=cap, capacity=cap, alloc=None, stop=None, bin_reply=True, max_matches=None)
+    if mm and len(content) > 0:
+        c.update(strategy=1, hist=[], npre=0)
+    else:
+        c.update(strategy=0, npre=min(3, len(content)), hist=([8189] if stdin else []))
+    return c
+
+
+def model_line(c):
+    return vlist([str(c["mode"]), str(c["b"]), str(c["strategy"]), str(c["capacity"]), "()", hist_val(c["hist"]),
+                  vbytes(c["stream"]), vlist([vbytes(n) for n in c["needles"]]), vbool(c["invert"]), vbool(c["passthru"]),
+                  "()", "1", str(c["cap"]), "()", vopt(vbytes(c["path"])), str(c["npre"])])
+
+
+def run_rg(args, cwd, stdin_path=None):
+    fin = open(stdin_path, "rb") if stdin_path else subprocess.DEVNULL
+    try:
+        p = subprocess.run([vlib.RG, "--no-config", "--color", "never"] + args, cwd=cwd, stdin=fin,
+                           stdout=subprocess.PIPE, stderr=subprocess.PIPE, timeout=120)
+    finally:
+        if stdin_path:
+            fin.close()
+    return p.returncode, p.stdout, p.stderr
+
+
+OUTMODES = ["std", "std", "count", "lwm", "lwo", "passthru", "A1", "B1", "C2", "json", "only", "replace", "multiline",
+            "vimgrep", "stats"]
+MODELLED = {"std": 2, "count": 3, "lwm": 4, "lwo": 5, "passthru": 2}
+
+
+def straddle_files(cap):
+    """shapes around the end of the sniffed prefix (offset cap) and around read boundaries:
+    s*: short NUL-free lines, then ONE long matching line that starts before cap, has its needle before cap and
+        the file's first NUL after cap (with / without further lines, NUL right at cap+1 or well after);
+    al*: 64-byte lines so that a line boundary, the end of the first full buffer and the NUL coincide at cap"""
+    res = {}
+    pad = lambda n: b"x" * n
+    # long lines, one in eight matching: keeps the unary-arithmetic model fast
+    short = (b"".join((b"x a" if i % 8 == 0 else b"bb ") + pad(250) + b"\n" for i in range(cap // 254 + 2)))
+    head = short[:cap - 40]
+    head = head[:head.rfind(b"\n") + 1]
+    for name, nul_at, tail in (("s0", cap + 4, b""), ("s1", cap + 1, b"b\na\n"), ("s2", cap + 300, b"a tail\n"),
+                               ("s3", cap, b"a\n")):
+        line = b"ab " + pad(cap - len(head) - 3 + (nul_at - cap)) + b"\x00" + pad(5) + b"\n"
+        assert len(head) + 3 < cap and len(head) + len(line) > cap and (head + line).find(b"\x00") == nul_at
+        res["t/" + name] = head + line + tail
+    row = b"a" + pad(62) + b"\n"
+    for name, extra in (("al0", b"\x00"), ("al1", b"\x00a\n"), ("al2", b"a\x00\n"), ("al3", row + b"\x00")):
+        res["t/" + name] = row * (cap // 64) + extra
+    return res
+
+
+def cli_round(ctx, rng, cap, stats, big_ok, fixed=None, invocations=None):
+    d = tempfile.mkdtemp(dir=vlib.CACHE, prefix="c14-")
+    try:
+        os.mkdir(os.path.join(d, "t"))
+        files = {}
+        if fixed is not None:
+            files = dict(fixed)
+        else:
+            for i in range(rng.randint(2, 5)):
+                name = "t/f%d" % i
+                files[name] = gen_file(rng, cap, big_ok and i < 1) if not (big_ok and i == 0) else gen_file_big(rng, cap)
+        for name in files:
+            open(os.path.join(d, name), "wb").write(files[name])
+        names = sorted(files)
+        for it in range(len(invocations) if invocations else 6):
+            flag = rng.choice([0, 0, 1, 2])
+            explicit = rng.random() < 0.5
+            mm = rng.random() < 0.5
+            om = rng.choice(OUTMODES)
+            invert = rng.random() < 0.15 and om in MODELLED
+            stdin_name = rng.choice(names) if rng.random() < 0.12 else None
+            if big_ok and it < 3:
+                # a traversed / named big file in plain standard mode, both strategies
+                flag, explicit, mm, om, invert, stdin_name = 0, it == 2, it == 1, "std", False, None
+            if invocations:
+                flag, explicit, mm, om = invocations[it]
+                invert, stdin_name = False, None
+            args = ["-F", "-e", "a", "-e", "ab", "-N", "--no-heading", "-H", "--sort", "path",
+                    "--mmap" if mm else "--no-mmap"]
+            if flag == 1:
+                args.append("--binary")
+            if flag == 2:
+                args.append("--text")
+            if invert:
+                args.append("-v")
+            args += {"std": [], "count": ["-c"], "lwm": ["-l"], "lwo": ["--files-without-match"],
+                     "passthru": ["--passthru"], "A1": ["-A1"], "B1": ["-B1"], "C2": ["-C2"], "json": ["--json"],
+                     "only": ["-o"], "replace": ["-r", "Z"], "multiline": ["-U"], "vimgrep": ["--vimgrep"],
+                     "stats": ["--stats"]}[om]
+            if om == "json":
+                args = [a for a in args if a not in ("-N", "--no-heading", "-H")]
+            if stdin_name:
+                targets, explicit_eff = [(stdin_name, b"<stdin>")], True
+                rc, out, err = run_rg(args, d, stdin_path=os.path.join(d, stdin_name))
+            elif explicit:
+                targets, explicit_eff = [(n, n.encode()) for n in names], True
+                rc, out, err = run_rg(args + names, d)
+            else:
+                targets, explicit_eff = [(n, n.encode()) for n in names], False
+                rc, out, err = run_rg(args + ["t"], d)
+            stats["cli_runs"] += 1
+            stats["cli_%s" % om] += 1
+            what = dict(kind="cli", args=args, explicit=explicit_eff, stdin=stdin_name,
+                        files={n: repr(files[n][:200]) + ("...(%d bytes)" % len(files[n])) for n in names},
+                        stdout=repr(out[:2000]), stderr=repr(err[:500]))
+            if rc == 2:
+                ctx.violation("rg failed on a generated tree: %r" % err[:200], what)
+                continue
+            # ---- the property's own wording
+            if flag != 2 and b"\x00" in out:
+                ctx.violation("NUL byte on stdout without --text", what)
+                continue
+            mode, b = model_mode(flag, explicit_eff, bool(stdin_name))
+            expect_mode = 0 if flag == 2 else (2 if (explicit_eff or flag == 1) else 1)
+            if mode != expect_mode:
+                ctx.violation("detection_for (model of from_low_args / is_explicit) disagrees with the property's table",
+                              what, nfi=True)
+            if om not in MODELLED:
+                continue
+            # ---- model prediction, file by file
+            common = dict(mode=mode, b=b, needles=NEEDLES, invert=invert, passthru=(om == "passthru"))
+            cases = [predict_file(common, files[n], p, mm and not stdin_name, cap, stdin=bool(stdin_name)) for n, p in targets]
+            mouts = par_model(1401, [model_line(c) for c in cases])
+            pred = b""
+            ok = True
+            for c, mo in zip(cases, mouts):
+                if not mo.startswith("("):
+                    ok = False
+                    break
+                pred += bz(parse_val(mo)[MODELLED[om]])
+            if not ok:
+                ctx.violation("model failed on a CLI case: %s" % mo[:80], what, nfi=True)
+                continue
+            if pred != out:
+                what["model"] = repr(pred[:2000])
+                ctx.violation("rg stdout differs from the model's prediction (mode %s)" % om, what, nfi=True)
+            # ---- direct statement of the property for plain standard output
+            if om == "std" and not invert:
+                for c in cases:
+                    pre = c["path"] + b":"
+                    mine = [l for l in out.split(b"\n") if l.startswith(pre)]
+                    ref = [l for l in c["stream"].split(b"\n") if any(n in l for n in NEEDLES)]
+                    ref_clean = [pre + l for l in ref]
+                    has_nul = b"\x00" in c["stream"]
+                    warn = [l for l in mine if l.startswith(pre + b" WARNING: stopped searching binary file")]
+                    note = [l for l in mine if l.startswith(pre + b" binary file matches")]
+                    printed = [l for l in mine if l not in warn and l not in note]
+                    w2 = dict(what)
+                    w2["file"] = c["path"].decode()
+                    if flag == 2:
+                        if printed != ref_clean or warn or note:
+                            ctx.violation("--text: output is not the plain grep of the raw bytes", w2)
+                        continue
+                    if printed != ref_clean[:len(printed)]:
+                        ctx.violation("printed lines are not a prefix of the file's matching lines", w2)
+                    if not has_nul and (printed != ref_clean or warn or note):
+                        ctx.violation("text file: output is not its matching lines", w2)
+                    if mode == 1:
+                        if note or (warn and not printed) or (has_nul and printed and len(printed) < len(ref_clean) and not warn):
+                            ctx.violation("quit mode: neither dropped nor cut off with a warning", w2)
+                        # the roll buffer examines every byte up to the NUL: lines printed => warning
+                        if has_nul and printed and not warn and c["strategy"] == 0:
+                            ctx.violation("quit mode (reader): lines were printed before the NUL but there is no warning", w2)
+                        if warn:
+                            stats["cli_warning"] += 1
+                        if has_nul and not mine:
+                            stats["cli_dropped"] += 1
+                    else:
+                        if warn or (note and not has_nul) or (ref and not mine) or (not ref and mine):
+                            ctx.violation("convert mode: notice/no-output condition violated", w2)
+                        if note:
+                            stats["cli_notice"] += 1
+    finally:
+        shutil.rmtree(d, ignore_errors=True)
+
+
 def corpus_cases(default_cap):
     base = dict(mode=1, b=0, strategy=0, capacity=4, alloc=None, stream=b"", hist=[], needles=[b"a"], invert=False,
                 passthru=False, stop=None, bin_reply=True, max_matches=None, path=b"p/f", cap=default_cap)
@@ -256,6 +541,19 @@ def corpus_cases(default_cap):
     return res
 
 
+def straddle_lib_cases(default_cap):
+    base = dict(b=0, capacity=default_cap, alloc=None, hist=[], needles=[b"ab"], invert=False, passthru=False, stop=None,
+                bin_reply=True, max_matches=None, path=b"p/f", cap=default_cap)
+    res = []
+    for name, content in sorted(straddle_files(default_cap).items()):
+        for mode in (1, 2):
+            for strategy in (1, 0):
+                c = dict(base)
+                c.update(stream=content, mode=mode, strategy=strategy)
+                res.append(c)
+    return res
+
+
 def run(ctx):
     from collections import Counter
     rng = ctx.rng
@@ -267,8 +565,17 @@ def run(ctx):
     ctx.cov["DEFAULT_BUFFER_CAPACITY"] = default_cap
     stats = Counter()
     check_lib_cases(ctx, corpus_cases(default_cap), stats)
+    check_lib_cases(ctx, straddle_lib_cases(default_cap), stats, heavy=True)
     cases = [gen_case(rng, default_cap) for _ in range(ctx.count(2500))]
     check_lib_cases(ctx, cases, stats)
+    # fixed shapes around offset DEFAULT_BUFFER_CAPACITY: every mode x strategy, plain / count / -U / context
+    inv = [(flag, explicit, mm, om) for flag in (0, 1) for explicit in (False, True) for mm in (True, False)
+           for om in ("std",)] + [(0, False, True, "multiline"), (0, True, True, "multiline"), (1, False, True, "multiline"),
+                                  (0, False, True, "C2"), (0, True, True, "A1"), (0, False, True, "count"),
+                                  (0, True, True, "json"), (0, False, True, "only"), (0, True, False, "multiline")]
+    cli_round(ctx, rng, default_cap, stats, big_ok=False, fixed=straddle_files(default_cap), invocations=inv)
+    for r in range(ctx.count(8)):
+        cli_round(ctx, rng, default_cap, stats, big_ok=(r % 3 == 0))
     ctx.cov["library_branches"] = dict(stats)
     ctx.cov["rule"] = ("library cases: stream of short lines over {a,b,x} with 0-3 binary bytes at chosen places, "
                        "mode none/quit/convert, reader (capacity 1-64, eager or limited growth, read history with "
